@@ -5,11 +5,21 @@
      << 1, zero padded; 12-bit salt from two ./0-9A-Za-z characters (little end
      first); 25 salted DES encryptions of the zero block; output = salt + 11
      characters, 6 bits at a time from the most significant end, last group padded.
-   R_NT: NT hash: MD4 of the UCS-2LE expansion, 32 lower-case hex digits after "$3$$". */
+   R_NT: NT hash: MD4 of the UCS-2LE expansion, 32 lower-case hex digits after "$3$$".
+   R_MD5CRYPT: Poul-Henning Kamp's md5crypt (FreeBSD crypt-md5.c), transcribed: alternate
+     sum MD5(pw salt pw); main sum MD5(pw "$1$" salt, alternate bytes for len(pw), then for
+     each bit of len(pw): NUL if set else pw[0]); 1000 rounds mixing pw / salt / previous
+     (cut after the same number of rounds as the code under test: ROUNDS_CUT); output
+     permutation 0-6-12, 1-7-13, 2-8-14, 3-9-15, 4-10-5, 11.  Lengths are fixed per query.
+   R_SHA1CRYPT: NetBSD crypt-sha1: HMAC-SHA1 keyed with the passphrase over
+     salt "$sha1$" iterations, re-applied iterations-1 times (cut: ROUNDS_CUT), 28-character
+     encoding of 20 bytes with the wrap-around of byte 0. */
 #include "crypt-port.h"
 #include <errno.h>
 #include "alg-des.h"
 #include "alg-md4.h"
+#include "alg-md5.h"
+#include "alg-hmac-sha1.h"
 #include "vf.h"
 extern void METHOD_FN(const char *, size_t, const char *, size_t, uint8_t *, size_t, void *, size_t);
 static const char A64[] = "./0123456789ABCDEFGHIJKLMNOPQRSTUVWXYZabcdefghijklmnopqrstuvwxyz";
@@ -22,8 +32,11 @@ static int a64i(char c)
   return -1;
 }
 size_t in_plen;
-char in_phrase[MAX_P + 1], in_setting[16];
-static char out[CRYPT_OUTPUT_SIZE], want[64];
+char in_phrase[MAX_P + 1], in_setting[48];
+#if defined R_MD5CRYPT || defined R_SHA1CRYPT
+static char *to64r(char *s, unsigned long v, int n) { while (--n >= 0) { *s++ = A64[v & 0x3f]; v >>= 6; } return s; }
+#endif
+static char out[CRYPT_OUTPUT_SIZE], want[96];
 static _Alignas(16) unsigned char scratch[1536];
 
 void harness(void)
@@ -61,9 +74,69 @@ void harness(void)
   want[36] = 0;
   size_t wlen = 36;
 #endif
+#ifdef R_MD5CRYPT
+  in_plen = FIX_PLEN;
+  size_t sl = FIX_SLEN, slen = 3 + sl;
+  in_setting[0] = '$'; in_setting[1] = '1'; in_setting[2] = '$';
+  for (size_t i = 0; i < sl; i++) { in_setting[3 + i] = nondet_char(); __CPROVER_assume(a64i(in_setting[3 + i]) >= 0); }
+  in_setting[3 + sl] = 0;
+  const char *pw = in_phrase, *sp = in_setting + 3;
+  MD5_CTX c, c1; unsigned char fin[16];
+  MD5_Init(&c1); MD5_Update(&c1, pw, in_plen); MD5_Update(&c1, sp, sl); MD5_Update(&c1, pw, in_plen); MD5_Final(fin, &c1);
+  MD5_Init(&c); MD5_Update(&c, pw, in_plen); MD5_Update(&c, "$1$", 3); MD5_Update(&c, sp, sl);
+  for (size_t pl = in_plen; pl > 0; pl = pl > 16 ? pl - 16 : 0) MD5_Update(&c, fin, pl > 16 ? 16 : pl);
+  fin[0] = 0;
+  for (size_t i = in_plen; i; i >>= 1) MD5_Update(&c, (i & 1) ? (const char *)fin : pw, 1);
+  MD5_Final(fin, &c);
+  for (unsigned i = 0; i < ROUNDS_CUT; i++) {
+    MD5_Init(&c1);
+    if (i & 1) MD5_Update(&c1, pw, in_plen); else MD5_Update(&c1, fin, 16);
+    if (i % 3) MD5_Update(&c1, sp, sl);
+    if (i % 7) MD5_Update(&c1, pw, in_plen);
+    if (i & 1) MD5_Update(&c1, fin, 16); else MD5_Update(&c1, pw, in_plen);
+    MD5_Final(fin, &c1);
+  }
+  char *p = want;
+  *p++ = '$'; *p++ = '1'; *p++ = '$';
+  for (size_t i = 0; i < sl; i++) *p++ = sp[i];
+  *p++ = '$';
+  p = to64r(p, ((unsigned long)fin[0] << 16) | ((unsigned long)fin[6] << 8) | fin[12], 4);
+  p = to64r(p, ((unsigned long)fin[1] << 16) | ((unsigned long)fin[7] << 8) | fin[13], 4);
+  p = to64r(p, ((unsigned long)fin[2] << 16) | ((unsigned long)fin[8] << 8) | fin[14], 4);
+  p = to64r(p, ((unsigned long)fin[3] << 16) | ((unsigned long)fin[9] << 8) | fin[15], 4);
+  p = to64r(p, ((unsigned long)fin[4] << 16) | ((unsigned long)fin[10] << 8) | fin[5], 4);
+  p = to64r(p, fin[11], 2);
+  *p = 0;
+  size_t wlen = 3 + sl + 1 + 22;
+#endif
+#ifdef R_SHA1CRYPT
+  in_plen = FIX_PLEN;
+  size_t sl = FIX_SLEN;
+  /* "$sha1$" ITER "$" salt : ITER is the fixed decimal string ITER_STR */
+  static const char itr[] = ITER_STR;
+  size_t il = sizeof itr - 1, slen = 6 + il + 1 + sl;
+  { const char *m = "$sha1$"; for (int i = 0; i < 6; i++) in_setting[i] = m[i]; }
+  for (size_t i = 0; i < il; i++) in_setting[6 + i] = itr[i];
+  in_setting[6 + il] = '$';
+  for (size_t i = 0; i < sl; i++) { in_setting[7 + il + i] = nondet_char(); __CPROVER_assume(a64i(in_setting[7 + il + i]) >= 0); }
+  in_setting[slen] = 0;
+  unsigned char hb[20], msg[64]; size_t ml = 0;
+  for (size_t i = 0; i < sl; i++) msg[ml++] = (unsigned char)in_setting[7 + il + i];
+  { const char *m = "$sha1$"; for (int i = 0; i < 6; i++) msg[ml++] = (unsigned char)m[i]; }
+  for (size_t i = 0; i < il; i++) msg[ml++] = (unsigned char)itr[i];
+  hmac_sha1_process_data(msg, ml, (const unsigned char *)in_phrase, in_plen, hb);
+  for (unsigned i = 0; i < ROUNDS_CUT; i++) hmac_sha1_process_data(hb, 20, (const unsigned char *)in_phrase, in_plen, hb);
+  char *p = want;
+  for (size_t i = 0; i < slen; i++) *p++ = in_setting[i];
+  *p++ = '$';
+  for (int i = 0; i < 18; i += 3) p = to64r(p, ((unsigned long)hb[i] << 16) | ((unsigned long)hb[i + 1] << 8) | hb[i + 2], 4);
+  p = to64r(p, ((unsigned long)hb[18] << 16) | ((unsigned long)hb[19] << 8) | hb[0], 4);
+  *p = 0;
+  size_t wlen = slen + 1 + 28;
+#endif
   out[0] = '*'; out[1] = '0'; out[2] = 0;
   METHOD_FN(in_phrase, in_plen, in_setting, slen, (uint8_t *)out, sizeof out, scratch, sizeof scratch);
   VF_ASSERT(out[0] != '*', "C02: the method accepts the setting");
-  for (size_t i = 0; i < 40; i++) if (i <= wlen) VF_ASSERT(out[i] == want[i], "C02: hash equals the transcription of the published algorithm over the same primitive");
+  for (size_t i = 0; i < 90; i++) if (i <= wlen) VF_ASSERT(out[i] == want[i], "C02: hash equals the transcription of the published algorithm over the same primitive");
   VF_WITNESS("reference compared");
 }
